@@ -55,7 +55,9 @@ func (m *Model) RecordReading(val float32) (*traits.MeterReading, error) {
 		now := m.meterReading.Clock().Now()
 		newVal := new.(*traits.MeterReading)
 		newVal.EndTime = timestamppb.New(now)
-	}))
+	}),
+		// leave start_time alone
+		resource.WithUpdatePaths("usage", "end_time"))
 }
 
 // Reset resets the meter to zero, updating both start and end times to now.
